@@ -595,7 +595,15 @@ def e18(ctx: Ctx):
     vals = rule_values(ctx)
     # where does an implicit jump print a bare number, and which class prints it inline after THEN?
     g = py.resolve_method("BasicGoto", "basic09_text")
-    ctx.need(g is not None and ast_contains(g[1], "$$a if self._implicit else $$b"), "BasicGoto.basic09_text", "`<bare number> if self._implicit else GOTO <n>` not recognised")
+    ctx.need(g is not None, "BasicGoto.basic09_text", "not found")
+    # an implicit jump prints as a bare number: as a conditional expression or as an early return under a test of the flag
+    bare = ast_contains(g[1], "$$a if self._implicit else $$b") or any(
+        isinstance(n, ast.If) and "_implicit" in unparse(n.test) and any(isinstance(r_, ast.Return) and isinstance(r_.value, ast.JoinedStr) and len(r_.value.values) == 1 and isinstance(r_.value.values[0], ast.FormattedValue) for r_ in n.body)
+        for n in ast.walk(g[1])
+    )
+    if not bare:
+        ctx.undecided("implicit-goto", "how BasicGoto prints an implicit jump is not recognised", file="coco/b09/elements.py", line=g[1].lineno)
+        return
     inline = set()
     for cls in py.classes:
         r = py.resolve_method(cls, "basic09_text")
